@@ -803,8 +803,13 @@ func (vfs *OrefaFS) Rename(oldname, newname string) error {
 	nParent, nParentOk := vfs.nodes[nDirName]
 	vfs.mu.RUnlock()
 
-	if !oChildOk || !oParentOk {
+	// As rename(2), the parent directories of both names are looked up before the old name.
+	if !oParentOk {
 		return &os.LinkError{Op: op, Old: oldname, New: newname, Err: vfs.errNotFound(oAbsPath, vfs.err.NoSuchFile)}
+	}
+
+	if !oParent.mode.IsDir() {
+		return &os.LinkError{Op: op, Old: oldname, New: newname, Err: vfs.err.NotADirectory}
 	}
 
 	if !nParentOk {
@@ -814,6 +819,10 @@ func (vfs *OrefaFS) Rename(oldname, newname string) error {
 	// The parent of newname must be a directory.
 	if !nParent.mode.IsDir() {
 		return &os.LinkError{Op: op, Old: oldname, New: newname, Err: vfs.err.NotADirectory}
+	}
+
+	if !oChildOk {
+		return &os.LinkError{Op: op, Old: oldname, New: newname, Err: vfs.errNotFound(oAbsPath, vfs.err.NoSuchFile)}
 	}
 
 	// Nothing can replace a directory (as os.Rename).
